@@ -204,6 +204,7 @@ def run(run):
     run.floor('C07.e', 8)
     from gen import static_units as _su
     run.guard('configuration setters', _su.report, run, 'C07.g', _su.config_unit('C07.g'))      # the configured value survives every order of the setters
+    run.guard('configuration setters', _su.report, run, 'C07.g', _su.config_unit('C07.g', plans=False))      # ... with and without the plan feature
     run.floor('C07.g', 1)
     run.floor('C07.f', 20)
     run.explanation = (
